@@ -1442,3 +1442,26 @@ theorem C07.close_unloads_all : C07.close_unloads_all_full := by
   have := C06.lookup_latest o ho (h ++ [Op.close]) hok k
   rw [specRun_append_close, hs] at this
   cases this
+
+/-! ### the same without "the result is not a fuel exhaustion" hypotheses -/
+
+/-- `isActivated` always answers, and its answer is the closure predicate
+(`C07.isActivated_iff_closure` with its hypothesis `isActivated … = some b` discharged). -/
+theorem C07.isActivated_total (o : Ord) (ho : o.Valid) (h : List Op) (sb : Sym)
+    (hsb : Live (run o {} h) sb) :
+    ∃ b, isActivated o (run o {} h) sb = some b ∧ (b = true ↔ ClosureOK (run o {} h) sb) := by
+  have hk := C07.reachable_keyId o h
+  cases hb : isActivated o (run o {} h) sb with
+  | none => exact absurd hb (isActivated_ne_none o ho _ hk sb)
+  | some b => exact ⟨b, rfl, C07.isActivated_iff_closure o ho _ hk sb hsb b hb⟩
+
+/-- `linked` always answers; its answer is duplicate-free and is exactly the set of present symbols
+that reach `sb` (`C07.linked_nodup`, `C07.linked_exact` with `linked … = some l` discharged). -/
+theorem C07.linked_total (o : Ord) (ho : o.Valid) (h : List Op) (hw : WfRun o {} h) (sb : Sym)
+    (hsb : Live (run o {} h) sb) :
+    ∃ l, linked o (run o {} h) sb = some l ∧ (l.map (·.id)).Nodup ∧
+      ∀ x, x ∈ l ↔ (Live (run o {} h) x ∧ Reach (run o {} h) x sb) := by
+  cases hl : linked o (run o {} h) sb with
+  | none => exact absurd hl (linked_ne_none o ho _ sb)
+  | some l =>
+    exact ⟨l, rfl, C07.linked_nodup o ho _ sb l hl, fun x => C07.linked_exact o ho h hw sb hsb l hl x⟩
